@@ -212,6 +212,21 @@ def run(ctx):
                                            dict(c, ops=[o]))
             qi += 1
     ctx.sample(dict(kind="history", case=dict(hcases[-1], ops=hcases[-1]["ops"][:3]), model_sources=msrc[-1]))
+    # the stand-alone functions and the digitize alias
+    fcases = []
+    for i in range(60 if quick else 1500):
+        dist = rng.choice(["normal", "normal", "uniform", "const", "halfint"])
+        fcases.append(dict(via=["quantize_real", "quantize_complex", "digitize"][i % 3], b=rng.randint(2, 8), tm=rng.choice([0, 0, 0.5, -1.5, 2.25]), fwhm=rng.choice([32, 8, 3.5, 100]),
+                           num=rng.choice([5, 50, 10000]), spec=dict(seed=rng.randint(0, 10 ** 6), n=rng.choice([1, 3, 17, 200, 1000]), dist=dist,
+                                                                     mu=rng.choice([0.0, 0.3, 7.7, -123.456, rng.uniform(-50, 50)]), sigma=10 ** rng.uniform(-2, 2))))
+    fimpl = []
+    for part in C.run_impl_parallel("c09_impl", [dict(mode="func", cases=ch) for ch in C.chunks(fcases, C.NCPU)]):
+        fimpl.extend(part)
+    for c, r in zip(fcases, fimpl):
+        ctx.count(dict(k="func", c=c), nontrivial=c["spec"]["n"] > 1)
+        ctx.tally("function", c["via"])
+        for key, msg in r["fails"]:
+            ctx.impl_violation(key, msg + " (%s)" % json.dumps(dict(b=c["b"], tm=c["tm"], fwhm=c["fwhm"], num=c["num"], n=c["spec"]["n"], dist=c["spec"]["dist"])), dict(k="func", **c))
 
 
 def gen_hist(rng):
@@ -244,6 +259,10 @@ def corpus():
 
 def replay(ctx, payload):
     case = payload["case"]
+    if case.get("k") == "func":
+        r = C.run_impl("c09_impl", dict(mode="func", cases=[case]))[0]
+        print(r["fails"]); print("replay: property %s on %s" % ("FAILS" if r["fails"] else "holds", C.REPO))
+        return 1 if r["fails"] else 0
     if "ops" in case:
         tr = C.run_impl("c09_impl", dict(mode="hist", cases=[case]))[0]
         print(json.dumps(tr, indent=1)[:3000])
